@@ -6,7 +6,9 @@ import canon
 import core
 import decsuite as ds
 
-THEOREMS = ["runWalker_acct", "C10.c10_pulls_bounded", "C06.c06_pump_total", "C06.c06_pulls_le"]
+THEOREMS = ["runWalker_acct", "C10.c10_pulls_bounded", "C06.c06_pump_total", "C06.c06_pulls_le",
+            "decode_nc", "decodeCommand_nc", "decodeResponse_ncx", "decodeStream_ncx", "C06.c06_tables", "C06.c06_msg_tables",
+            "C06.c06_no_crash_type", "C06.c06_no_crash_command", "C06.c06_response", "C06.c06_stream"]
 DOCUMENTED = {"done", "depleted", "superfluous", "raised:ValueConstraintViolatedError", "raised:SizeConstraintExceededError",
               "raised:SizeConstraintSubceededError", "raised:AnticipatedSizeConstraintExceededError"}
 
